@@ -434,6 +434,8 @@ Section Driver.
             pret (eres (elist etensor) (add_inplace_nested a b))
     | 14 => let* a := plist ptensor in let* s := pfloat in
             pret (0 :: elist etensor (div_scalar_nested a s))
+    | 18 => let* a := plist (popt ptensor) in let* b := plist (popt ptensor) in
+            pret (eres (elist (eopt etensor)) (add_inplace_nestedopt a b))
     | 15 => let* t := ptensor in pret (eres (fun n => [enat n]) (argmax t))
     | 16 => let* t := ptensor in let* r := pfloat in pret (0 :: etensor (dropout t r))
     | 17 => let* t := ptensor in let* h := pnat in let* w := pnat in
